@@ -5,7 +5,7 @@ import itertools
 
 import numpy as np
 
-from mc.util import call, raised, array_args, array_args_unchanged
+from mc.util import call, raised, array_args, array_args_unchanged, permuted_series
 from models import blockref as B
 
 ID = "C09"
@@ -45,8 +45,11 @@ def _configs(tier, full, third=True):
                 for rg in ("given", "inferred"):
                     for ce in (False, True):
                         for dr in (True, False):
-                            for fm in ("1d", "2d", "2dF", "mixed", "int", "int_e", "far"):
+                            for fm in ("1d", "2d", "2dF", "mixed", "int", "int_e", "far", "series"):
                                 yield dict(a, block=bk, region=rg, center=ce, drop=dr, form=fm)
+                            if a["w"]:
+                                for wsc in (1e-9, 1e9):
+                                    yield dict(a, block=bk, region=rg, center=ce, drop=dr, form="1d", wscale=wsc)
         return
     two = (dict(red="mean", ncomp=1, w=False), dict(red="average", ncomp=2, w=True))
     for a in a_axis:
@@ -70,11 +73,17 @@ def _configs(tier, full, third=True):
             for ce in (False, True):
                 for a in two + (dict(red="sum", ncomp=1, w=False),):
                     yield dict(a, block="spacing", region="given", center=ce, drop=not ce, form="1d", route=route)
-        for fm in ("mixed", "int", "int_e", "far"):
+        for fm in ("mixed", "int", "int_e", "far", "series"):
             for rg in ("given", "inferred"):
                 for ce in (False, True):
                     for a in two:
                         yield dict(a, block="spacing", region=rg, center=ce, drop=True, form=fm)
+        # weights of very small / very large magnitude (1/sigma^2 with sigma = 3e4, or 3e-5): seed C09-10, an absolute "all zero" test
+        for r in RED_W:
+            for c in (1, 2):
+                for wsc in (1e-9, 1e9):
+                    yield dict(red=r, ncomp=c, w=True, block="spacing", region="given", center=False, drop=True, form="1d", wscale=wsc)
+                yield dict(red=r, ncomp=c, w=True, block="spacing", region="given", center=False, drop=True, form="series")
         for bk in ("spacing_nd_s", "spacing_nd_r"):
             for rg in ("given", "inferred"):
                 for ce in (False, True):
@@ -150,7 +159,7 @@ def run(case, rec):
     data = [np.array([2.0 ** (p + 9 * c) for p in range(npts)]) for c in range(ncomp)]
     wts = None
     if case["w"]:
-        wts = [np.array([[p + 1.0, (npts - p) + 0.5, 2.0 ** p][c] for p in range(npts)]) for c in range(ncomp)]
+        wts = [np.array([[p + 1.0, (npts - p) + 0.5, 2.0 ** p][c] for p in range(npts)]) * case.get("wscale", 1.0) for c in range(ncomp)]
     extra = np.array([10.0 * p for p in range(npts)])
     form = case["form"]
     shp = (npts,)
@@ -205,6 +214,12 @@ def run(case, rec):
         shp_ = coords[0].shape
         tv = lambda a: np.ascontiguousarray(a.reshape(shp_).T).T
         w_arg = tv(wts[0]) if ncomp == 1 else tuple(tv(w) for w in wts)
+    if form == "series":
+        # data and weights as columns of a sorted / shuffled table (integer index that is a permutation of 0..n-1), coordinates as
+        # arrays: pairing must stay positional (seed C09-9)
+        d_arg = permuted_series(data[0]) if ncomp == 1 else tuple(permuted_series(d, k) for k, d in enumerate(data))
+        if wts is not None:
+            w_arg = permuted_series(wts[0], 1) if ncomp == 1 else tuple(permuted_series(w, k + 1) for k, w in enumerate(wts))
     before = [a.tobytes() for a in (e, n, extra)] + [d.tobytes() for d in data] + ([w.tobytes() for w in wts] if wts else [])
     route = case.get("route")
     if route in ("set_params", "attribute"):
